@@ -67,7 +67,7 @@ def unsupported(msg):
 class Path:
     MAX_DECISIONS = 600
 
-    def __init__(self, prefix=(), feas_timeout_ms=3000):
+    def __init__(self, prefix=(), feas_timeout_ms=800):
         self.prefix = list(prefix)
         self.taken = []
         self.pc = []
